@@ -1,5 +1,5 @@
 (* Proofs/SimplePlanP.v — the planner behind `renamify replace --no-regex` (Model/SimplePlan.v: create_simple_plan /
-   process_file_content, literal mode) produces plans that are consistent with the text it scanned, for EVERY input.
+   process_file_content_lossy, literal mode) produces plans that are consistent with the text it scanned, for EVERY input.
    Stdlib + lia only. *)
 From RN Require Import Base.Bytes Model.Edits Model.Matcher Model.Hunks Model.SimplePlan Model.ApplyModel.
 From RN Require Import Proofs.EditsP Proofs.HunksP.
@@ -731,7 +731,7 @@ Qed.
 End Complete.
 
 (* ------------------------------------------------------------------------------------------ *)
-(* S7: process_file_content and create_simple_plan -- the main theorems                        *)
+(* S7: process_file_content_lossy and create_simple_plan -- the main theorems                        *)
 (* ------------------------------------------------------------------------------------------ *)
 
 (* what a plan says about one of its hunks, checked against the text [t]:
@@ -760,10 +760,10 @@ Section File.
 Variable excl : bytes -> bool.
 Variables p repl : bytes.
 
-Notation pfc := (process_file_content excl p repl).
+Notation pfc := (process_file_content_lossy excl p repl).
 
 Lemma pfc_fst bat c : fst (pfc bat c) = [] \/ fst (pfc bat c) = scan_text excl p repl (lossy c).
-Proof. unfold process_file_content. destruct (negb bat && is_binary c); [left|right]; reflexivity. Qed.
+Proof. unfold process_file_content_lossy. destruct (negb bat && is_binary c); [left|right]; reflexivity. Qed.
 
 (* binary files are skipped unless -uuu; otherwise the result is the loop on the decoded text; has_matches says
    whether the file has hunks *)
@@ -772,7 +772,7 @@ Theorem simple_plan_file_cases : forall bat c,
   (negb bat && is_binary c = false -> fst (pfc bat c) = scan_text excl p repl (lossy c)) /\
   snd (pfc bat c) = negb (Nat.eqb (length (fst (pfc bat c))) 0).
 Proof.
-  intros bat c. unfold process_file_content. destruct (negb bat && is_binary c).
+  intros bat c. unfold process_file_content_lossy. destruct (negb bat && is_binary c).
   - split; [reflexivity|]. split; [discriminate|reflexivity].
   - split; [discriminate|]. split; [reflexivity|]. cbn [fst snd].
     destruct (scan_text excl p repl (lossy c)); reflexivity.
@@ -850,34 +850,6 @@ Proof.
   apply scan_text_complete; assumption.
 Qed.
 
-(* MAIN 6: create_simple_plan: the empty pattern is an error; otherwise the plan holds the hunks of every file and
-   the stats count what the plan holds *)
-Lemma files_with_count bat : forall files,
-  length (filter snd (map (pfc bat) files)) =
-  length (filter (fun l : list fhunk => negb (Nat.eqb (length l) 0)) (map fst (map (pfc bat) files))).
-Proof.
-  induction files as [|c files IH]; [reflexivity|]. cbn [map filter].
-  destruct (simple_plan_file_cases bat c) as (_ & _ & E). rewrite E.
-  destruct (negb (Nat.eqb (length (fst (pfc bat c))) 0)); cbn [length]; rewrite IH; reflexivity.
-Qed.
-
-Theorem create_simple_plan_spec : forall bat files,
-  (p = [] -> create_simple_plan excl p repl bat files = None) /\
-  (p <> [] -> exists per_file st,
-     create_simple_plan excl p repl bat files = Some (per_file, st) /\
-     per_file = map (fun c => fst (pfc bat c)) files /\
-     st_files_scanned st = length files /\
-     total_ok (st_total st) per_file = true /\
-     files_with_ok (st_files_with st) per_file = true /\
-     st_by_variant st = [(p, st_total st)]).
-Proof.
-  intros bat files. split; [intros ->; reflexivity|]. intro Hp.
-  unfold create_simple_plan. destruct p as [|x p'] eqn:Ep; [congruence|]. rewrite <- Ep.
-  eexists. eexists. split; [reflexivity|]. cbn [st_files_scanned st_total st_files_with st_by_variant].
-  split; [rewrite map_map; reflexivity|]. split; [reflexivity|].
-  unfold total_ok, files_with_ok. rewrite files_with_count, !Nat.eqb_refl. auto.
-Qed.
-
 (* MAIN 7 (C15, "what the preview shows is what apply does", for the replace planner): for the hunks the plan has on
    one line -- any contiguous segment of the file's hunk list whose hunks share a line number -- the diff preview's
    "after" line is the line as it reads once ALL of them are applied.  The no_cr_cut exception of the case-aware
@@ -902,6 +874,143 @@ Qed.
 End File.
 
 (* ------------------------------------------------------------------------------------------ *)
+(* S7b: THE CURRENT process_file_content (repo fix 0904d0d): a file that is not valid UTF-8 is left out.  Every theorem
+   of S7 that needed [utf8_ok c] now holds for EVERY file: on valid text the function is the one above (lossy is the
+   identity), on anything else it returns no hunk. *)
+Section FileNow.
+Variable excl : bytes -> bool.
+Variables p repl : bytes.
+
+Notation pfl := (process_file_content_lossy excl p repl).
+Notation pfn := (SimplePlan.process_file_content excl p repl).
+
+Lemma pfn_valid bat c : utf8_ok c = true -> pfn bat c = pfl bat c.
+Proof.
+  intro U. unfold SimplePlan.process_file_content, process_file_content_lossy.
+  destruct (negb bat && is_binary c); [reflexivity|]. rewrite U. cbn [negb]. rewrite (lossy_of_utf8 c U). reflexivity.
+Qed.
+
+Lemma pfn_invalid bat c : utf8_ok c = false -> pfn bat c = ([], false).
+Proof.
+  intro U. unfold SimplePlan.process_file_content. destruct (negb bat && is_binary c); [reflexivity|]. rewrite U. reflexivity.
+Qed.
+
+Lemma pfn_cases bat c :
+  (utf8_ok c = true /\ pfn bat c = pfl bat c) \/ (pfn bat c = ([], false)).
+Proof.
+  destruct (utf8_ok c) eqn:U; [left; split; [reflexivity|apply pfn_valid; exact U]|right; apply pfn_invalid; exact U].
+Qed.
+
+Theorem simple_plan_now_file_cases : forall bat c,
+  (negb bat && is_binary c = true -> pfn bat c = ([], false)) /\
+  (utf8_ok c = false -> pfn bat c = ([], false)) /\
+  (negb bat && is_binary c = false -> utf8_ok c = true -> fst (pfn bat c) = scan_text excl p repl c) /\
+  snd (pfn bat c) = negb (Nat.eqb (length (fst (pfn bat c))) 0).
+Proof.
+  intros bat c. unfold SimplePlan.process_file_content.
+  destruct (negb bat && is_binary c).
+  - repeat split; try reflexivity; discriminate.
+  - destruct (utf8_ok c); cbn [negb].
+    + repeat split; try reflexivity; try discriminate. cbn [fst snd]. destruct (scan_text excl p repl c); reflexivity.
+    + repeat split; try reflexivity; discriminate.
+Qed.
+
+(* every hunk is what the plan says it is, against THE FILE, for every file *)
+Theorem simple_plan_now_hunks : forall bat c h, p <> [] ->
+  In h (fst (pfn bat c)) -> hunk_spec excl p repl c h.
+Proof.
+  intros bat c h Hp Hin. destruct (pfn_cases bat c) as [[U E]|E]; rewrite E in Hin.
+  - apply (simple_plan_hunks excl p repl bat); assumption.
+  - destruct Hin.
+Qed.
+
+Theorem simple_plan_now_sorted : forall bat c, sorted_disjoint 0 (fst (pfn bat c)) = true.
+Proof.
+  intros bat c. destruct (pfn_cases bat c) as [[U E]|E]; rewrite E; [apply simple_plan_sorted|reflexivity].
+Qed.
+
+(* the plan is consistent with the file (C03), for every file *)
+Theorem simple_plan_now_consistent : forall bat c, p <> [] -> utf8_ok p = true ->
+  file_consistent false c (fst (pfn bat c)) = true.
+Proof.
+  intros bat c Hp Up. destruct (pfn_cases bat c) as [[U E]|E]; rewrite E.
+  - apply simple_plan_consistent; assumption.
+  - reflexivity.
+Qed.
+
+(* applying the plan rewrites exactly the reported occurrences (link to C02), for every file *)
+Theorem simple_plan_now_applies : forall bat c,
+  p <> [] -> utf8_ok p = true -> head_ok repl = true -> head_ok c = true ->
+  wf_edits c (map edit_of_hunk (fst (pfn bat c))) = true /\
+  apply_edits_rev c (map edit_of_hunk (fst (pfn bat c))) = Ok (spec_splice c (map edit_of_hunk (fst (pfn bat c)))).
+Proof.
+  intros bat c Hp Up Hr Hc. destruct (pfn_cases bat c) as [[U E]|E]; rewrite E.
+  - apply simple_plan_applies; assumption.
+  - cbn [fst map]. split; [reflexivity|]. apply apply_edits_rev_spec; [exact Hc|reflexivity].
+Qed.
+
+(* what the diff preview shows for a line is how the line reads once all its hunks are applied (C15), for every file *)
+Theorem simple_plan_now_preview : forall bat c seg_pre h0 hs seg_post,
+  p <> [] -> utf8_ok p = true -> fst (pfn bat c) = seg_pre ++ (h0 :: hs) ++ seg_post ->
+  (forall h, In h hs -> fh_line h = fh_line h0) ->
+  diff_after (h0 :: hs) = line_after_plan (line_ctx false c (fh_start h0)) (h0 :: hs).
+Proof.
+  intros bat c seg_pre h0 hs seg_post Hp Up Hs Hl. destruct (pfn_cases bat c) as [[U E]|E]; rewrite E in Hs.
+  - apply (simple_plan_preview excl p repl bat c seg_pre h0 hs seg_post); assumption.
+  - cbn [fst] in Hs. destruct seg_pre; discriminate Hs.
+Qed.
+
+(* leftmost non-overlapping completeness on every scanned file *)
+Theorem simple_plan_now_complete : forall bat c j, p <> [] -> utf8_ok c = true ->
+  negb bat && is_binary c = false ->
+  j + length p <= length c -> firstn (length p) (skipn j c) = p ->
+  excl (strip_eol (line_at c j)) = false -> col_of c j + length p <= length (strip_eol (line_at c j)) ->
+  exists h, In h (fst (pfn bat c)) /\ fh_start h <= j < fh_end h.
+Proof.
+  intros bat c j Hp U Hb. rewrite (pfn_valid bat c U). apply simple_plan_complete; assumption.
+Qed.
+
+(* create_simple_plan: the empty pattern is an error; otherwise the plan holds the hunks of every file and the stats count
+   what the plan holds *)
+Lemma files_with_count bat : forall files,
+  length (filter snd (map (pfn bat) files)) =
+  length (filter (fun l : list fhunk => negb (Nat.eqb (length l) 0)) (map fst (map (pfn bat) files))).
+Proof.
+  induction files as [|c files IH]; [reflexivity|]. cbn [map filter].
+  destruct (simple_plan_now_file_cases bat c) as (_ & _ & _ & E). rewrite E.
+  destruct (negb (Nat.eqb (length (fst (pfn bat c))) 0)); cbn [length]; rewrite IH; reflexivity.
+Qed.
+
+Theorem create_simple_plan_spec : forall bat files,
+  (p = [] -> create_simple_plan excl p repl bat files = None) /\
+  (p <> [] -> exists per_file st,
+     create_simple_plan excl p repl bat files = Some (per_file, st) /\
+     per_file = map (fun c => fst (pfn bat c)) files /\
+     st_files_scanned st = length files /\
+     total_ok (st_total st) per_file = true /\
+     files_with_ok (st_files_with st) per_file = true /\
+     st_by_variant st = [(p, st_total st)]).
+Proof.
+  intros bat files. split; [intros ->; reflexivity|]. intro Hp.
+  unfold create_simple_plan. destruct p as [|x p'] eqn:Ep; [congruence|]. rewrite <- Ep.
+  eexists. eexists. split; [reflexivity|]. cbn [st_files_scanned st_total st_files_with st_by_variant].
+  split; [rewrite map_map; reflexivity|]. split; [reflexivity|].
+  unfold total_ok, files_with_ok. rewrite files_with_count, !Nat.eqb_refl. auto.
+Qed.
+End FileNow.
+(* the inputs on which the code before the fix was refuted (module SimpleWitness below, now about process_file_content_lossy):
+   the current function leaves those files out *)
+Example non_utf8_files_are_left_out :
+  SimplePlan.process_file_content (fun _ => false) [97%N] [122%N] false [255%N; 97%N] = ([], false) /\
+  SimplePlan.process_file_content (fun _ => false) [98%N] [122%N] false [255%N; 98%N; 97%N; 97%N; 97%N; 97%N] = ([], false) /\
+  SimplePlan.process_file_content (fun _ => false) [111%N; 108%N; 100%N] [110%N; 101%N; 119%N] false
+    [99%N; 97%N; 102%N; 233%N; 32%N; 111%N; 108%N; 100%N; 10%N] = ([], false).
+Proof. vm_compute. repeat split. Qed.
+
+
+
+
+(* ------------------------------------------------------------------------------------------ *)
 (* S8: witnesses: the hypotheses are satisfiable (non-vacuity), they are needed, and what is    *)
 (*     FALSE of the code.  Every witness below was also run on the real planner                *)
 (*     (harness op simple_plan_tree); the real output is the model's, field by field.           *)
@@ -917,7 +1026,7 @@ Module SimpleWitness.
      an excluded line, an empty line, overlapping candidates, no final newline *)
   Definition c0 : bytes :=
     [120;32;97;97;97;13;10; 98;98;32;195;169;32;97;97;13;113;32;97;97;10; 35;32;97;97;10; 10; 97;97;97;97].
-  Definition hs0 := fst (process_file_content hash_lines aa zzz false c0).
+  Definition hs0 := fst (process_file_content_lossy hash_lines aa zzz false c0).
 
   (* non-vacuity of MAIN 1-5: all hypotheses hold and the plan has five hunks on three lines *)
   Example main_hypotheses_hold :
@@ -951,8 +1060,8 @@ Module SimpleWitness.
 
   (* overlapping occurrences: "aaa" / "aa" gives ONE hunk (0..2); "aaaaa" gives 0..2 and 2..4 *)
   Example overlapping_occurrences :
-    map (fun h => (fh_start h, fh_end h)) (fst (process_file_content noex aa zzz false [97;97;97])) = [(0, 2)]%nat /\
-    map (fun h => (fh_start h, fh_end h)) (fst (process_file_content noex aa zzz false [97;97;97;97;97])) =
+    map (fun h => (fh_start h, fh_end h)) (fst (process_file_content_lossy noex aa zzz false [97;97;97])) = [(0, 2)]%nat /\
+    map (fun h => (fh_start h, fh_end h)) (fst (process_file_content_lossy noex aa zzz false [97;97;97;97;97])) =
       [(0, 2); (2, 4)]%nat.
   Proof. vm_compute. auto. Qed.
 
@@ -964,9 +1073,9 @@ Module SimpleWitness.
 
   (* a pattern with '\n' never matches (each line is searched alone); one with '\r' matches inside a line only *)
   Example pattern_across_lines :
-    fst (process_file_content noex [98;10;97] zzz false [97;98;10;97;98]) = [] /\
-    fst (process_file_content noex [98;13] zzz false [97;98;13;10;97;98]) = [] /\
-    map (fun h => (fh_start h, fh_end h)) (fst (process_file_content noex [98;13] zzz false [97;98;13;113;10])) =
+    fst (process_file_content_lossy noex [98;10;97] zzz false [97;98;10;97;98]) = [] /\
+    fst (process_file_content_lossy noex [98;13] zzz false [97;98;13;10;97;98]) = [] /\
+    map (fun h => (fh_start h, fh_end h)) (fst (process_file_content_lossy noex [98;13] zzz false [97;98;13;113;10])) =
       [(1, 3)]%nat.
   Proof. vm_compute. auto. Qed.
 
@@ -974,19 +1083,19 @@ Module SimpleWitness.
      a BOM counts 3 bytes / 1 char on line 1 *)
   Example byte_and_char_columns :
     map (fun h => (fh_col h, fh_char h))
-        (fst (process_file_content noex [195;169] zzz false [104;195;169;108;108;111;32;104;195;169])) =
+        (fst (process_file_content_lossy noex [195;169] zzz false [104;195;169;108;108;111;32;104;195;169])) =
       [(1, 1); (8, 7)]%nat /\
     map (fun h => (fh_line h, fh_col h, fh_char h, fh_start h))
-        (fst (process_file_content noex [97;98] zzz false [239;187;191;97;98;10;97;98])) =
+        (fst (process_file_content_lossy noex [97;98] zzz false [239;187;191;97;98;10;97;98])) =
       [(1, 3, 1, 3); (2, 0, 0, 6)]%nat.
   Proof. vm_compute. auto. Qed.
 
   (* binary detection: NUL among the first 1024 bytes or %PDF => skipped; a UTF-16 BOM makes the file "text" *)
   Example binary_files :
-    process_file_content noex [97] zzz false [97;0;97] = ([], false) /\
-    process_file_content noex [97] zzz false [37;80;68;70;32;97] = ([], false) /\
-    map (fun h => (fh_start h, fh_end h)) (fst (process_file_content noex [97] zzz false [255;254;97;0])) = [(6, 7)]%nat /\
-    map (fun h => (fh_start h, fh_end h)) (fst (process_file_content noex [97] zzz true [97;0;97])) = [(0, 1); (2, 3)]%nat.
+    process_file_content_lossy noex [97] zzz false [97;0;97] = ([], false) /\
+    process_file_content_lossy noex [97] zzz false [37;80;68;70;32;97] = ([], false) /\
+    map (fun h => (fh_start h, fh_end h)) (fst (process_file_content_lossy noex [97] zzz false [255;254;97;0])) = [(6, 7)]%nat /\
+    map (fun h => (fh_start h, fh_end h)) (fst (process_file_content_lossy noex [97] zzz true [97;0;97])) = [(0, 1); (2, 3)]%nat.
   Proof. vm_compute. auto. Qed.
 
   (* the empty pattern is rejected before any file is read *)
@@ -997,7 +1106,7 @@ Module SimpleWitness.
      are offsets into the lossily DECODED text (scanner.rs:1295), where every ill-formed sequence takes 3 bytes.
      "\xffa" / "a": the hunk 3..4 lies outside the 2-byte file.  Real planner: start 3, end 4 as well. *)
   Theorem simple_plan_span_within_file_refuted : exists c p repl h,
-    p <> [] /\ utf8_ok p = true /\ In h (fst (process_file_content noex p repl false c)) /\
+    p <> [] /\ utf8_ok p = true /\ In h (fst (process_file_content_lossy noex p repl false c)) /\
     (length c < fh_end h)%nat.
   Proof.
     exists [255;97], [97], [82]. eexists. split; [discriminate|]. split; [reflexivity|].
@@ -1006,7 +1115,7 @@ Module SimpleWitness.
 
   (* "\xffbaaaa" / "b": the hunk 3..4 is inside the file, but the file has "a" there, not "b" *)
   Theorem simple_plan_content_at_offsets_refuted : exists c p repl h,
-    p <> [] /\ utf8_ok p = true /\ In h (fst (process_file_content noex p repl false c)) /\
+    p <> [] /\ utf8_ok p = true /\ In h (fst (process_file_content_lossy noex p repl false c)) /\
     (fh_end h <= length c)%nat /\
     firstn (fh_end h - fh_start h) (skipn (fh_start h) c) <> fh_content h.
   Proof.
@@ -1019,10 +1128,10 @@ Module SimpleWitness.
      consistent with the decoded text (simple_plan_consistent_decoded) *)
   Theorem simple_plan_consistent_refuted : exists c p repl,
     p <> [] /\ utf8_ok p = true /\ head_ok repl = true /\
-    fst (process_file_content noex p repl false c) <> [] /\
-    file_consistent false c (fst (process_file_content noex p repl false c)) = false /\
-    wf_edits c (map edit_of_hunk (fst (process_file_content noex p repl false c))) = false /\
-    apply_edits_rev c (map edit_of_hunk (fst (process_file_content noex p repl false c))) = Mismatch.
+    fst (process_file_content_lossy noex p repl false c) <> [] /\
+    file_consistent false c (fst (process_file_content_lossy noex p repl false c)) = false /\
+    wf_edits c (map edit_of_hunk (fst (process_file_content_lossy noex p repl false c))) = false /\
+    apply_edits_rev c (map edit_of_hunk (fst (process_file_content_lossy noex p repl false c))) = Mismatch.
   Proof.
     exists [99;97;102;233;32;111;108;100;10], [111;108;100], [110;101;119].
     split; [discriminate|]. vm_compute. repeat split; try reflexivity. discriminate.
@@ -1031,7 +1140,7 @@ Module SimpleWitness.
   (* the hypothesis [utf8_ok p] of MAIN 3/4 is needed in the model (a pattern that is a lone continuation byte matches
      inside a character); it cannot be violated from Rust, where the pattern is a &str *)
   Example pattern_must_be_utf8 :
-    file_consistent false [195;169] (fst (process_file_content noex [169] zzz false [195;169])) = false.
+    file_consistent false [195;169] (fst (process_file_content_lossy noex [169] zzz false [195;169])) = false.
   Proof. vm_compute. reflexivity. Qed.
 End SimpleWitness.
 
@@ -1051,3 +1160,10 @@ Print Assumptions lossy_of_utf8.
 Print Assumptions SimpleWitness.simple_plan_span_within_file_refuted.
 Print Assumptions SimpleWitness.simple_plan_content_at_offsets_refuted.
 Print Assumptions SimpleWitness.simple_plan_consistent_refuted.
+Print Assumptions simple_plan_now_hunks.
+Print Assumptions simple_plan_now_sorted.
+Print Assumptions simple_plan_now_consistent.
+Print Assumptions simple_plan_now_applies.
+Print Assumptions simple_plan_now_preview.
+Print Assumptions simple_plan_now_complete.
+Print Assumptions create_simple_plan_spec.
